@@ -74,30 +74,138 @@ class Effect:
     node: ast.AST
     term: tuple  # call term | stored value | returned value | raised value
     target: tuple | None = None  # store: ('self', attr) / ('local-item', name, key) ...
-    guards: tuple = ()
+    guards: tuple = ()  # conditions that hold on every path reaching the effect: ((cond, polarity), ...)
     loops: tuple = ()
     trys: tuple = ()
     handler: ast.AST | None = None
     stmt: ast.AST | None = None
+    dnf: tuple = ((),)  # full path condition in disjunctive normal form: tuple of conjunctions
 
     @property
     def line(self):
         return getattr(self.node, "lineno", 0)
 
 
+MAX_DNF = 48
+
+
+def expand_literal(c, pol):
+    """(cond, polarity) -> list of conjunctions (DNF) over simpler literals."""
+    if c[0] == "and":
+        if pol:
+            out = [()]
+            for x in c[1]:
+                out = [a + b for a in out for b in expand_literal(x, True)]
+            return out
+        out, prefix = [], ()
+        for x in c[1]:
+            for b in expand_literal(x, False):
+                out.append(prefix + b)
+            pos = expand_literal(x, True)
+            prefix = prefix + (pos[0] if len(pos) == 1 else ((x, True),))
+        return out
+    if c[0] == "or":
+        if not pol:
+            out = [()]
+            for x in c[1]:
+                out = [a + b for a in out for b in expand_literal(x, False)]
+            return out
+        out, prefix = [], ()
+        for x in c[1]:
+            for b in expand_literal(x, True):
+                out.append(prefix + b)
+            neg = expand_literal(x, False)
+            prefix = prefix + (neg[0] if len(neg) == 1 else ((x, False),))
+        return out
+    if c[0] == "not":
+        return expand_literal(c[1], not pol)
+    return [((c, pol),)]
+
+
+def dnf_and(dnf, c, pol):
+    out = []
+    for conj in dnf:
+        for lits in expand_literal(c, pol):
+            new = conj
+            dead = False
+            for lit in lits:
+                if (lit[0], not lit[1]) in new:
+                    dead = True
+                    break
+                if lit not in new:
+                    new = new + (lit,)
+            if not dead:
+                out.append(new)
+    return _dnf_simplify(out)
+
+
+def dnf_or(a, b):
+    return _dnf_simplify(list(a) + list(b))
+
+
+def _dnf_simplify(conjs):
+    conjs = list(dict.fromkeys(conjs))
+    changed = True
+    while changed and len(conjs) > 1:
+        changed = False
+        for i in range(len(conjs)):
+            for j in range(i + 1, len(conjs)):
+                a, b = conjs[i], conjs[j]
+                if len(a) == len(b):
+                    da = [l for l in a if l not in b]
+                    db = [l for l in b if l not in a]
+                    if len(da) == 1 and len(db) == 1 and da[0][0] == db[0][0] and da[0][1] != db[0][1]:
+                        conjs[i] = tuple(l for l in a if l != da[0])
+                        del conjs[j]
+                        changed = True
+                        break
+                sa, sb = set(a), set(b)
+                if sa <= sb:
+                    del conjs[j]
+                    changed = True
+                    break
+                if sb <= sa:
+                    del conjs[i]
+                    changed = True
+                    break
+            if changed:
+                break
+    if len(conjs) > MAX_DNF:
+        common = tuple(l for l in conjs[0] if all(l in c for c in conjs))
+        return (common,)
+    return tuple(conjs)
+
+
+def dnf_common(dnf):
+    if not dnf:
+        return ()
+    return tuple(l for l in dnf[0] if all(l in c for c in dnf))
+
+
 @dataclass
 class State:
     env: dict
-    guards: tuple = ()
+    dnf: tuple = ((),)
     dead: str | None = None  # return | raise | break | continue
 
+    @property
+    def guards(self):
+        return dnf_common(self.dnf)
+
+    @guards.setter
+    def guards(self, g):
+        self.dnf = (tuple(g),)
+
     def copy(self):
-        return State(dict(self.env), self.guards, self.dead)
+        return State(dict(self.env), self.dnf, self.dead)
+
+    def assume(self, c, pol):
+        self.dnf = dnf_and(self.dnf, c, pol)
 
 
 class SymEval:
     def __init__(self, ce: ConstEval, func: FuncInfo, bind: dict | None = None, override=None, unroll: int = 0,
-                 modenv: dict | None = None, selfname: str | None = None):
+                 modenv: dict | None = None, selfname: str | None = None, uid_base: int = 0):
         self.ce = ce
         self.func = func
         self.modenv = modenv if modenv is not None else ce.module_env(func.module)
@@ -105,7 +213,7 @@ class SymEval:
         self.override = override
         self.unroll = unroll
         self.effects: list[Effect] = []
-        self.uid = 0
+        self.uid = uid_base
         self._loops: list = []
         self._trys: list = []
         self._handler = None
@@ -114,6 +222,8 @@ class SymEval:
         self.unsupported: list[ast.AST] = []
         self.loop_info: dict = {}
         self.final: State | None = None
+        self._snapshots: dict = {}  # try id -> list of env snapshots taken before each possibly-raising statement
+        self._loop_ends: dict = {}  # loop id -> list of (kind, State) for continue / break exits
 
     # ------------------------------------------------------------------ driver
     def run(self):
@@ -141,7 +251,7 @@ class SymEval:
         return self.uid
 
     def _effect(self, kind, node, term, st, target=None):
-        e = Effect(len(self.effects), kind, node, term, target, st.guards, tuple(self._loops), tuple(self._trys), self._handler, self._stmt)
+        e = Effect(len(self.effects), kind, node, term, target, st.guards, tuple(self._loops), tuple(self._trys), self._handler, self._stmt, st.dnf)
         self.effects.append(e)
         return e
 
@@ -162,6 +272,9 @@ class SymEval:
 
     def stmt(self, s, st: State) -> State:
         self._stmt = s
+        if self._trys and may_raise_stmt(s):
+            for tid in self._trys:
+                self._snapshots.setdefault(tid, []).append(dict(st.env))
         if isinstance(s, ast.Expr):
             if not isinstance(s.value, ast.Constant):
                 self.expr(s.value, st)
@@ -200,9 +313,13 @@ class SymEval:
         if isinstance(s, ast.Try):
             return self.try_(s, st)
         if isinstance(s, ast.Continue):
+            if self._loops:
+                self._loop_ends.setdefault(self._loops[-1], []).append(("continue", st.copy()))
             st.dead = "continue"
             return st
         if isinstance(s, ast.Break):
+            if self._loops:
+                self._loop_ends.setdefault(self._loops[-1], []).append(("break", st.copy()))
             st.dead = "break"
             return st
         if isinstance(s, (ast.Pass, ast.Global, ast.Nonlocal, ast.Import, ast.ImportFrom)):
@@ -309,26 +426,26 @@ class SymEval:
         if b is False:
             return self.block(s.orelse, st)
         s1 = st.copy()
-        s1.guards = st.guards + ((c, True),)
+        s1.assume(c, True)
         s2 = st.copy()
-        s2.guards = st.guards + ((c, False),)
+        s2.assume(c, False)
         s1 = self.block(s.body, s1)
         s2 = self.block(s.orelse, s2)
-        return self.merge(c, s1, s2, st.guards)
+        return self.merge(c, s1, s2, st.dnf)
 
-    def merge(self, c, s1: State, s2: State, base_guards) -> State:
+    def merge(self, c, s1: State, s2: State, base_dnf) -> State:
         if s1.dead and s2.dead:
             d = s1.dead if s1.dead == s2.dead else "mixed"
-            return State(s1.env, base_guards, d)
+            return State(s1.env, base_dnf, d)
         if s1.dead:
-            return State(s2.env, s2.guards, None) if s1.dead in ("return", "raise", "continue", "break") else s2
+            return State(s2.env, s2.dnf, None)
         if s2.dead:
-            return State(s1.env, s1.guards, None)
+            return State(s1.env, s1.dnf, None)
         env = {}
         for k in set(s1.env) | set(s2.env):
             a, b = s1.env.get(k, ("undef", k)), s2.env.get(k, ("undef", k))
             env[k] = a if a == b else self.ite(c, a, b)
-        return State(env, base_guards, None)
+        return State(env, dnf_or(s1.dnf, s2.dnf), None)
 
     def ite(self, c, a, b):
         if a == b:
@@ -361,6 +478,7 @@ class SymEval:
                 return self.block(s.orelse, st) if s.orelse else st
         # havoc loop-carried state
         pre = st.copy()
+        st = st.copy()
         for n in assigned:
             st.env[n] = ("loop", lid, n)
         for f in fields:
@@ -376,15 +494,17 @@ class SymEval:
             info["test"] = c
             body_st = st.copy()
             if self.truth(c) is None:
-                body_st.guards = st.guards + ((c, True),)
+                body_st.assume(c, True)
         else:
             body_st = st.copy()
             self.assign(s.target, ("elem", info.get("iter", TOP), lid), body_st, s)
         body_st = self.block(s.body, body_st)
         info["body_end"] = body_st.env
         info["body_dead"] = body_st.dead
+        info["body_end_dnf"] = body_st.dnf
+        info["ends"] = self._loop_ends.get(lid, [])
         self._loops.pop()
-        out = State(dict(st.env), pre.guards, None)
+        out = State(dict(st.env), pre.dnf, None)
         for n in assigned:
             out.env[n] = ("loopout", lid, n)
         for f in fields:
@@ -394,7 +514,7 @@ class SymEval:
                 if k.startswith("self."):
                     out.env[k] = ("loopout", lid, k)
         if isinstance(s, ast.While) and self.truth(info["test"]) is None and not _has_break(s.body):
-            out.guards = pre.guards + ((info["test"], False),)
+            out.assume(info["test"], False)
         if s.orelse:
             out = self.block(s.orelse, out)
         # a loop whose body always returns/raises on every path and `while True` without break never falls through
@@ -413,18 +533,21 @@ class SymEval:
         outs = [body]
         assigned = _assigned_names(s.body)
         fields = _assigned_fields(s.body, self.selfname)
+        snaps = self._snapshots.get(tid, [])
         for i, h in enumerate(s.handlers):
             hs = pre.copy()
-            for n in assigned:
-                a, b = pre.env.get(n, ("undef", n)), body.env.get(n, ("undef", n))
-                hs.env[n] = a if a == b else ("maybe", tid, a, b)
-            for f in fields:
-                k = "self." + f
-                a, b = pre.env.get(k, ("field", f)), body.env.get(k, ("field", f))
-                hs.env[k] = a if a == b else ("maybe", tid, a, b)
+            for n in assigned | {"self." + f for f in fields}:
+                vals = []
+                for sn in snaps:
+                    v = sn.get(n, ("field", n[5:]) if n.startswith("self.") else ("undef", n))
+                    if v not in vals:
+                        vals.append(v)
+                if not vals:
+                    vals = [pre.env.get(n, ("undef", n))]
+                hs.env[n] = vals[0] if len(vals) == 1 else ("maybe", tid, tuple(vals))
             if h.name:
                 hs.env[h.name] = ("exc", tid, norm(h.type) if h.type else "BaseException")
-            hs.guards = pre.guards + ((("caught", tid, i, norm(h.type) if h.type else ""), True),)
+            hs.assume(("caught", tid, i, norm(h.type) if h.type else ""), True)
             prev = self._handler
             self._handler = h
             hs = self.block(h.body, hs)
@@ -434,11 +557,12 @@ class SymEval:
             self.unsupported.append(s)
         live = [o for o in outs if not o.dead]
         if not live:
-            return State(pre.env, pre.guards, outs[0].dead or "raise")
+            return State(pre.env, pre.dnf, outs[0].dead or "raise")
         res = live[0]
         for i, o in enumerate(live[1:], 1):
-            res = self.merge(("exc-path", tid, i), o, res, pre.guards)
-        res.guards = pre.guards if len(live) > 1 or len(outs) > 1 and live[0] is not body else res.guards
+            res = self.merge(("exc-path", tid, i), o, res, pre.dnf)
+        if len(live) > 1:
+            res.dnf = pre.dnf
         return res
 
     # ------------------------------------------------------------------ expressions
@@ -733,6 +857,17 @@ class _Box:
 
 
 # ---------------------------------------------------------------------------- syntactic helpers
+def may_raise_stmt(s) -> bool:
+    """False only for statements that cannot raise: constant/name assignment to plain names, pass, break, continue."""
+    if isinstance(s, (ast.Pass, ast.Break, ast.Continue, ast.Global, ast.Nonlocal)):
+        return False
+    if isinstance(s, ast.Assign) and all(isinstance(t, ast.Name) for t in s.targets) and isinstance(s.value, (ast.Constant, ast.Name)):
+        return False
+    if isinstance(s, ast.Expr) and isinstance(s.value, ast.Constant):
+        return False
+    return True
+
+
 def _as_load(t):
     import copy
 
